@@ -447,8 +447,14 @@ int runC03(int argc, char **argv)
                 const QtMsgType type = r % 4 == 0 ? QtDebugMsg : r % 4 == 1 ? QtInfoMsg : r % 4 == 2 ? QtWarningMsg : QtCriticalMsg;
                 // caller-owned buffers, scrubbed and freed right after the call
                 char *file = heapStr("p" + std::to_string(p));
-                char *func = (r % 11 == 0) ? nullptr : heapStr("void ns::Cls" + std::to_string(r) + "::method(int) const");
-                char *cat = (r % 9 == 0) ? nullptr : heapStr(r % 2 ? "app.core" : "net.io" + std::to_string(r % 5));
+                // texts that are prefixes of one another (and empty ones) in small buffers of one allocator size class, so that a
+                // later message's string often sits at the address an earlier, shorter or longer, one was freed from
+                static const char *const kFuncs[] = { "", "f", "fn", "fn(int)", "fn(int) const", "void ns::f()", "void ns::f() const" };
+                static const char *const kCats[] = { "", "n", "net", "net.io", "net.io.tcp", "net.io.tcp.x", "app", "app.core" };
+                char *func = (r % 11 == 0) ? nullptr
+                        : (r % 3 == 0)     ? heapStr("void ns::Cls" + std::to_string(r) + "::method(int) const")
+                                           : heapStr(kFuncs[(r / 3) % 7]);
+                char *cat = (r % 9 == 0) ? nullptr : heapStr(kCats[(r / 2) % 8]);
                 char *text = heapStr("payload " + std::to_string(id) + " " + std::string(size_t(r % 40), char('a' + r % 26)));
                 const qint64 before = QDateTime::currentMSecsSinceEpoch();
                 const long long tc = ticket();
